@@ -305,6 +305,14 @@ def c06_extra(ctx):
     if foreign:
         ctx.violation(f"GET /head/t?follow&context=B streamed {len(foreign)} frame(s) of another context (same topic appended in the "
                       f"zero context) to the follower of context B", dict(engine="H", probe="head_follow_probe", result=str(r)[:600]))
+    # handler dispatch and handler output contexts (engine V): a few scenarios with handlers in several contexts whose
+    # scripts ask for foreign contexts with --context
+    for sd in [ctx.rnd.randrange(1, 10 ** 9) for _ in range(3 if ctx.tier == "quick" else 30)]:
+        rep = V.run_handler_scenario(sd, 12)
+        for v in rep["violations"][:2]:
+            ctx.violation("handler access path: " + v["what"][:600], dict(engine="V", seed=sd, script=v.get("script")))
+    if foreign:
+        pass
     elif len(r["delivered"]) < 2:
         ctx.violation("head-follow probe delivered fewer frames than expected (current head + one live frame of context B)",
                       dict(engine="H", probe="head_follow_probe", result=str(r)[:600], theorem_or_correspondence="engine H head-follow probe"), no_input=True)
